@@ -805,6 +805,9 @@ func (u *Unit) specEnvAt(st *State) map[string]Value {
 	for k, v := range u.entryNames {
 		env[k] = v
 	}
+	if n := len(u.rangeStack); n > 0 {
+		env["$i"] = intV(u.rangeStack[n-1])
+	}
 	return env
 }
 
@@ -989,11 +992,18 @@ func (u *Unit) execRange(st *State, x *ast.RangeStmt, label string) []*Out {
 			}
 			u.declareOrStore(b, valObj, ev, x.Tok == token.DEFINE)
 		}
-		for _, o := range u.execBlock(b, x.Body.List) {
+		u.rangeStack = append(u.rangeStack, i)
+		bodyOuts := u.execBlock(b, x.Body.List)
+		for _, o := range bodyOuts {
+			if o.kind == oNormal || o.kind == oContinue && (o.label == "" || o.label == label) {
+				u.loopAnchor(o.st, ord, "iterend", pos)
+			}
+		}
+		u.rangeStack = u.rangeStack[:len(u.rangeStack)-1]
+		for _, o := range bodyOuts {
 			switch {
 			case o.kind == oNormal, o.kind == oContinue && (o.label == "" || o.label == label):
 				s := o.st
-				u.loopAnchor(s, ord, "iterend", pos)
 				i1 := Add(i, IntLit(1))
 				ex2 := map[string]Value{"$i": intV(i1), "$n": intV(n)}
 				if keyObj != nil {
